@@ -2,7 +2,7 @@
 (* Property C11: the location (file, line) carried by every token, hence printed  *)
 (* by every diagnostic, is the presumed location of the token's first character.   *)
 (*                                                                               *)
-(* A "layout program" is a fixed prologue (#define ID(x) x, #define DROP(x)) and   *)
+(* A "layout program" is a fixed prologue (#define ID(x) x, #define DROP(x), #define S(x) #x) and   *)
 (* a sequence of items, each a few physical lines written as pieces (token starts, *)
 (* token continuations after a splice, filler = white space / comment text /        *)
 (* backslashes).  Two descriptions of "the location of every token":               *)
@@ -38,6 +38,7 @@ vars == <<prog, viol>>
 (* ====================================================================== *)
 (* Pieces, lines, items                                                      *)
 cINT == <<"i","n","t">>      cV == <<"v">>     cE == <<"e">>    cU == <<"u">>
+cS == <<"S">>   cF == <<"f">>   cVOID == <<"v","o","i","d">>   cGOTO == <<"g","o","t","o">>
 cID == <<"I","D">>           cDROP == <<"D","R","O","P">>       cX == <<"x">>
 cDEFINE == <<"d","e","f","i","n","e">>   cLINE == <<"l","i","n","e">>   cPRAGMA == <<"p","r","a","g","m","a">>
 cONCE == <<"o","n","c","e">>  cBOGUS == <<"b","o","g","u","s">>
@@ -56,13 +57,18 @@ C(c)        == [c |-> c, k |-> "+", s |-> <<>>, d |-> FALSE, e |-> FALSE]     \*
 (* by a directive or the macro machinery), "err" (new-line token that the diagnostic must name), "none" (spliced or    *)
 (* inside a comment)                                                                                                   *)
 L(ps, nl) == [ps |-> ps, nl |-> nl]
-Plain(ls) == [lines |-> ls, set |-> [on |-> FALSE, n |-> <<>>, file |-> <<>>]]
-SetLine(ls, n, file) == [lines |-> ls, set |-> [on |-> TRUE, n |-> n, file |-> file]]
+Plain(ls) == [lines |-> ls, set |-> [on |-> FALSE, n |-> <<>>, hasfile |-> FALSE, file |-> <<>>]]
+SetLine(ls, n, file) == [lines |-> ls, set |-> [on |-> TRUE, n |-> n, hasfile |-> TRUE, file |-> file]]
+SetLineOnly(ls, n) == [lines |-> ls, set |-> [on |-> TRUE, n |-> n, hasfile |-> FALSE, file |-> <<>>]]
 
 DeclLine == <<T(cINT), F(SP), T(cV), T(<<";">>)>>
 n1 == <<"1">>   n7 == <<"7">>   nBig == <<"2","1","4","7","4","8","3","6","4","7">>   n010 == <<"0","1","0">>
-LineDir(n)      == SetLine(<<L(<<Tn(<<"#">>), Tn(cLINE), F(SP), Tn(n)>>, "dir")>>, n, <<>>)
+LineDir(n)      == SetLineOnly(<<L(<<Tn(<<"#">>), Tn(cLINE), F(SP), Tn(n)>>, "dir")>>, n)
 LineDirF(n)     == SetLine(<<L(<<Tn(<<"#">>), Tn(cLINE), F(SP), Tn(n), F(SP), Tn(cFC)>>, "dir")>>, n, <<"f",".","c">>)
+(* file names that are proper prefixes / extensions of one another and of the input name "<stdin>", and the empty name *)
+Quote(name) == <<DQ>> \o name \o <<DQ>>
+LineDirName(n, name) == SetLine(<<L(<<Tn(<<"#">>), Tn(cLINE), F(SP), Tn(n), F(SP), Tn(Quote(name))>>, "dir")>>, n, name)
+MarkerName(n, name)  == SetLine(<<L(<<Tn(<<"#">>), F(SP), Tn(n), F(SP), Tn(Quote(name)), F(SP), Tn(<<"1">>)>>, "dir")>>, n, name)
 Marker(n)       == SetLine(<<L(<<Tn(<<"#">>), F(SP), Tn(n), F(SP), Tn(cGH), F(SP), Tn(<<"1">>), F(SP), Tn(<<"3">>)>>, "dir")>>, n, <<"g",".","h">>)
 MarkerNoFlag(n) == SetLine(<<L(<<Tn(<<"#">>), F(SP), Tn(n), F(SP), Tn(cGH)>>, "dir")>>, n, <<"g",".","h">>)
 
@@ -93,6 +99,10 @@ Item(name) ==
     [] name = "lineBig"  -> LineDir(nBig)
     [] name = "line010"  -> LineDir(n010)
     [] name = "line7f"   -> LineDirF(n7)
+    [] name = "line7fp"  -> LineDirName(n7, <<"f">>)                          \* prefix of f.c
+    [] name = "line7fx"  -> LineDirName(n7, <<"f",".","c",".","h">>)          \* extension of f.c
+    [] name = "line7e"   -> LineDirName(n7, <<>>)                             \* empty name: prefix of everything
+    [] name = "line7sp"  -> LineDirName(n7, <<"<","s","t","d">>)              \* prefix of the input name <stdin>
     [] name = "marker7"  -> Marker(n7)
     [] name = "markerBig" -> Marker(nBig)
     [] name = "marker1nf" -> MarkerNoFlag(n1)
@@ -105,12 +115,17 @@ Item(name) ==
                                     L(<<Te(cU), T(<<";">>)>>, "tok")>>)
     [] name = "v_macro"  -> Plain(<<L(<<T(cINT), F(SP), T(cE), F(SP), T(<<"=">>), F(SP), Tn(cID), Tn(<<"(">>)>>, "dir"),
                                     L(<<Te(cU)>>, "dir"), L(<<Tn(<<")">>), T(<<";">>)>>, "tok")>>)
+    (* the diagnostic names the string literal made by # : it must be located at a token of the invocation (one line here); *)
+    (* pp.c gives it the location of the token that ended the argument                                                     *)
+    [] name = "v_str"    -> Plain(<<L(<<T(cINT), F(SP), T(cF), T(<<"(">>), T(cVOID), T(<<")">>), F(SP), T(<<"{">>), F(SP), T(cGOTO), F(SP),
+                                        Tn(cS), Tn(<<"(">>), Tn(cU), Tne(<<")">>), T(<<";">>), F(SP), T(<<"}">>)>>, "tok")>>)
     [] name = "v_bogus"  -> Plain(<<L(<<Tn(<<"#">>), Tne(cBOGUS)>>, "dir")>>)
     [] name = "v_define" -> Plain(<<L(<<Tn(<<"#">>), Tn(cDEFINE)>>, "err")>>)
     [] name = "v_line"   -> Plain(<<L(<<Tn(<<"#">>), Tn(cLINE)>>, "err")>>)
 
 Prologue == <<Plain(<<L(<<Tn(<<"#">>), Tn(cDEFINE), F(SP), Tn(cID), Tn(<<"(">>), Tn(cX), Tn(<<")">>), F(SP), Tn(cX)>>, "dir")>>),
-              Plain(<<L(<<Tn(<<"#">>), Tn(cDEFINE), F(SP), Tn(cDROP), Tn(<<"(">>), Tn(cX), Tn(<<")">>)>>, "dir")>>)>>
+              Plain(<<L(<<Tn(<<"#">>), Tn(cDEFINE), F(SP), Tn(cDROP), Tn(<<"(">>), Tn(cX), Tn(<<")">>)>>, "dir")>>),
+              Plain(<<L(<<Tn(<<"#">>), Tn(cDEFINE), F(SP), Tn(cS), Tn(<<"(">>), Tn(cX), Tn(<<")">>), F(SP), Tn(<<"#">>), Tn(cX)>>, "dir")>>)>>
 
 ItemsOf(p, v) == Prologue \o [i \in 1..Len(p) |-> Item(p[i])] \o (IF v = "" THEN <<>> ELSE <<Item(v)>>)
 
@@ -150,7 +165,7 @@ DeclFrom(items, i, file, b, d) ==
            n == Len(it.lines)
            here == Cat([j \in 1..n |-> LineToks(it.lines[j], file, b, d + j - 1)])
        IN IF it.set.on
-          THEN here \o DeclFrom(items, i + 1, IF it.set.file = <<>> THEN file ELSE it.set.file, ValueInBase(it.set.n, 10), 0)
+          THEN here \o DeclFrom(items, i + 1, IF it.set.hasfile THEN it.set.file ELSE file, ValueInBase(it.set.n, 10), 0)
           ELSE here \o DeclFrom(items, i + 1, file, b, d + n)
 Decl(items) == DeclFrom(items, 1, StdinName, 1, 0)
 
